@@ -103,6 +103,11 @@ def scanning_loops(fn, pre_text):
                             spec["invariant"].append(f"tail == rev({mine[0][0]})" if mine[0][2] == "rev" else f"tail == seq_of({mine[0][0]})")
                         if pre_text:
                             spec["at_break"] = [f"last_mark_unique({pre_text}, ghost_val('m'), ghost_seq('seg'), {STK}, {var}, tail)"]
+                            # the same exit written as `if isinstance(x, MarkObject): return ...` inside the loop
+                            rets = [r_ for i_ in ast.walk(k) if isinstance(i_, ast.If) and "MarkObject" in ast.unparse(i_.test) and var in ast.unparse(i_.test)
+                                    for r_ in i_.body if isinstance(r_, ast.Return)]
+                            if rets:
+                                spec["at_return"] = list(spec["at_break"])
                         specs[ordn] = spec
             walk(k)
     walk(fn)
@@ -133,10 +138,27 @@ def install_memo_specs(K_or_eng):
     funcs["memo_has"] = memo_has
 
 
+def install_auto_loop_specs(eng):
+    def auto_loop_specs(key, fn):
+        """a helper without a contract that pops the interpreter's stack down to a mark (the loop several opcodes share when it is factored
+        out) gets the same invariant the opcodes' own scanning loops get"""
+        import ast as _ast
+        has_scan = any(isinstance(n, _ast.While) and any(isinstance(s_, _ast.Call) and _ast.unparse(s_) == "interpreter.stack.pop()" for s_ in _ast.walk(n))
+                       for n in _ast.walk(fn))
+        params = [a.arg for a in fn.args.posonlyargs + fn.args.args]
+        if not has_scan or "interpreter" not in params:
+            return None
+        # inside the verification of an opcode's run: the stack shape that opcode's contract assumes (so the break point exports the same facts)
+        vc = getattr(eng, "verify_contract", None)
+        return scanning_loops(fn, getattr(vc, "scan_pre", None))
+    eng.auto_loop_specs = auto_loop_specs
+
+
 def frame_contracts(run):
     """every concrete opcode run against the generic frame contract fickle.Opcode.run (what Interpreter.step assumes of it)"""
     import copy
     eng, repo = run.eng, run.repo
+    install_auto_loop_specs(eng)
     base = eng.contracts["fickle.Opcode.run"]
     out = []
     for name, cls in sorted(repo.live["OPCODES_BY_NAME"].items()):
@@ -186,6 +208,8 @@ def opcode_contracts(run, extra_ensures=None, props=()):
     eng, repo = run.eng, run.repo
     live = repo.live
     install_memo_specs(eng)
+
+    install_auto_loop_specs(eng)
     out = []
     for name, cls in sorted(live["OPCODES_BY_NAME"].items()):
         info = live["pickletools"][name]
@@ -219,6 +243,7 @@ def opcode_contracts(run, extra_ensures=None, props=()):
                 return {"orig_run": V("param_func", xs=oc)}
             wc = Contract(wkey, requires=sh["requires"] + mreq, ensures=sh["ensures"] + mens + extra, loops=scanning_loops(wfn, sh["pre"]),
                           fn_override=(wmod, wfn), closure_env=closure_env, **common)
+            wc.scan_pre = sh["pre"]
             eng.contracts[wkey] = wc
             out.append((cls, okey))
             out.append((cls, wkey))
@@ -227,6 +252,7 @@ def opcode_contracts(run, extra_ensures=None, props=()):
             key = f"{cls}.run"
             c = Contract(key, requires=sh["requires"] + mreq, ensures=sh["ensures"] + mens + extra,
                          loops=scanning_loops(fn, sh["pre"]), fn_override=(mod, fn), **common)
+            c.scan_pre = sh["pre"]
             eng.contracts[key] = c
             out.append((cls, key))
     return out
